@@ -34,6 +34,40 @@ def worker(case, led):
         led.check(np.abs(v - want).max() <= 1e-14 and np.array_equal(np.asarray(a.qntot).reshape(-1), np.asarray(qexp).reshape(-1)) and not bad,
                   "post:TTNS.__init__:product_state_in_its_sector_with_valid_labels", "TTNS.__init__",
                   f"dense differs by {np.abs(v - want).max():.1e}; qntot {a.qntot} vs charge of the occupied local states {qexp}; labels {bad[:1]}", key, {"trial": trial}, rep)
+    # charged one-body operators on EVERY degree of freedom, wherever it sits in its node: the operator carries its charge, the image of a state lies in the shifted
+    # sector with valid labels
+    from renormalizer.tn import TTNO
+    from vk.specs import universe as U_
+    ch_ops = [(op, ch) for op, ch, s_ in U_.elem_ops(model) if any(ch)]
+    for op, ch in ch_ops[:8]:
+        key = (repr(su["shape"]), flavour, seed, "charged-op", repr(op))
+        rep = dict(TU.describe_tree(bt), flavour=flavour, seed=seed, op=repr(op), charge=list(ch))
+        try:
+            O = TTNO(bt, [op])
+        except Exception as e:
+            led.check(False, "post:TTNO.__init__:charged_operator_total", "TTNO.__init__", f"raised {type(e).__name__}: {e}", key, {}, rep)
+            continue
+        led.check(np.array_equal(np.asarray(O.qntot).reshape(-1), np.asarray(ch).reshape(-1)), "post:TTNO.__init__:qntot_is_the_charge_of_the_operator", "TTNO.__init__",
+                  f"qntot {O.qntot} for an operator of charge {list(ch)}", key + ("qntot",), {}, rep)
+        for q in sectors[:3]:
+            a = TU.random_ttns(bt, q, 2, rng)
+            if a is None:
+                continue
+            va = T.dense_ttns(a, order)
+            want = U_.dense_terms(model, [op]) @ va
+            if np.abs(want).max() <= 1e-12:
+                continue
+            try:
+                r = O.apply(a)
+                qn_want = np.asarray(q).reshape(-1) + np.asarray(ch).reshape(-1)
+                mask2 = S.sector_mask(model, qn_want if len(qn_want) > 1 else int(qn_want[0]))
+                w = T.dense_ttns(r, order)
+                leak = float(np.abs(w[~mask2]).max()) if (~mask2).any() else 0.0
+                led.check(np.abs(w - want).max() <= 1e-10 and np.array_equal(np.asarray(r.qntot).reshape(-1), qn_want) and leak <= 1e-12 and not T.qnv_tree_violations(r),
+                          "post:TTNO.apply:charged_operator_shifts_the_sector", "TTNO.apply",
+                          f"O|a>: sector label {r.qntot} (expected {qn_want.tolist()}), leak {leak:.1e}, labels {T.qnv_tree_violations(r)[:1]}", key + (str(q),), {}, dict(rep, sector=q))
+            except Exception as e:
+                led.check(False, "post:TTNO.apply:charged_operator_total", "TTNO.apply", f"raised {type(e).__name__}: {e}", key + (str(q),), {}, dict(rep, sector=q))
     for q in sectors:           # every sector incl. empty / completely filled
         for m in (1, 3):
             a = TU.random_ttns(bt, q, m, rng)
